@@ -762,6 +762,15 @@ static ASMJIT_INLINE void rw_zero_extend_gp(OpRWInfo& op_rw_info, const Gp& reg,
     op_rw_info.add_op_flags(OpRWFlags::kZExt);
     op_rw_info.set_extend_byte_mask(~op_rw_info.write_byte_mask() & 0xFFu);
   }
+  else if (reg.size() == 4 && native_gp_size == 4) {
+    // 32-bit mode: instructions that write a sub-range of an r32 destination (pextrb/w, pmovmskb, movmskps/pd, kmovb/w, ...)
+    // zero the remaining bytes of the 32-bit register.
+    uint64_t msk = ~op_rw_info.write_byte_mask() & 0x0Fu;
+    if (msk && (op_rw_info.write_byte_mask() & 0x1u)) {
+      op_rw_info.add_op_flags(OpRWFlags::kZExt);
+      op_rw_info.set_extend_byte_mask(msk);
+    }
+  }
 }
 
 static ASMJIT_INLINE void rw_zero_extend_avx_vec(OpRWInfo& op_rw_info, const Vec& reg) noexcept {
